@@ -957,6 +957,42 @@ def check_multi_recipients():
     return None
 
 
+def check_read_ole_string():
+    """(round 7) _read_ole_string over a stub OLE file: never raises; '' when the stream is missing / unreadable, else the UTF-16-LE
+    text without trailing NULs (undecodable units dropped) -- validates the assumed olefile shapes the contract is stated over."""
+    from sharepoint2text.parsing.extractors.mail import msg_email_extractor as msg
+
+    class Stream:
+        def __init__(self, data):
+            self.data = data
+
+        def read(self):
+            if isinstance(self.data, Exception):
+                raise self.data
+            return self.data
+
+    class Ole:
+        def __init__(self, streams):
+            self.streams = streams
+
+        def openstream(self, path):
+            key = tuple(path)
+            if key not in self.streams:
+                raise OSError("file not found")
+            return Stream(self.streams[key])
+    ole = Ole({("st", "a"): "report.txt\x00\x00".encode("utf-16-le"), ("st", "b"): "Bericht \u00fc.pdf".encode("utf-16-le") + b"\x00",
+               ("st", "c"): OSError("broken sector chain"), ("st", "d"): b"", ("a", "st"): "swapped".encode("utf-16-le")})
+    table = [(("st", "a"), "report.txt"), (("st", "b"), "Bericht \u00fc.pdf"), (("st", "c"), ""), (("st", "d"), ""), (("st", "missing"), "")]
+    for (storage, name), want in table:
+        try:
+            got = msg._read_ole_string(ole, storage, name)
+        except Exception as e:  # noqa
+            got = f"raised {type(e).__name__}: {e}"
+        if got != want:
+            return {"target": "msg_email_extractor.py::_read_ole_string", "inputs": {"storage": storage, "stream": name}, "expected": want, "observed": got}
+    return None
+
+
 def check_looks_like_html():
     """(round 7) _looks_like_html: the cases the contract distinguishes (empty, doctype / <html / <body in any case after leading
     blanks, a listed tag closed at once); tags with attributes are the recorded finding C16-msg-html-fragment-not-recognised."""
@@ -1283,7 +1319,7 @@ FUNCTION_CHECKS = [
     ("MBOX_FROM_PATTERN", check_pattern), ("get_body_content", check_bodies),
     ("_split_mbox_messages", check_split), ("decode_header_value", check_headers), ("parse_email_address", check_headers),
     ("iterate_supported_attachments", check_dispatch), ("_parse_single_recipient", check_single_recipient), ("_parse_multi_recipients", check_multi_recipients),
-    ("_looks_like_html", check_looks_like_html), ("read_msg_format_mail", check_msg_mapping), ("read_msg_format_mail", check_msg_fixture),
+    ("_looks_like_html", check_looks_like_html), ("_read_ole_string", check_read_ole_string), ("read_msg_format_mail", check_msg_mapping), ("read_msg_format_mail", check_msg_fixture),
 ]
 CATEGORY_OF = [("parse_email_message", "mbox:"), ("get_body_content", "mbox:body"), ("read_mbox_format_mail", "mailbox:"), ("_read_eml_format", "eml:"),
                ("read_eml_format_mail", "eml:")]
